@@ -97,7 +97,7 @@ type PlanResult struct {
 	NewNums [][]uint64 // inner nodes: as returned by Merge
 	Size    uint64     // inner nodes: as returned by Merge; leaves: as returned by New
 	// Nodes holds the result of every inner node in post-order (children before parents); the last is the root.
-	Nodes []*NodeResult
+	Nodes   []*NodeResult
 	toClose []segment.Segment
 	paths   []string
 }
